@@ -53,7 +53,31 @@ fn tx_script(kind: &str, rng: &mut Rng, t: usize, tag: &mut u64, ps: u64) -> TxS
         });
     };
     match kind {
-        "fixed-size-overwrite" => {
+        "fragmented-free-set" => {
+            // t=0: 6000 pairs, two per leaf on consecutive pages; t=1: every second leaf emptied (1500
+            // non-adjacent free pages: the free set is large AND has no run of two at its low end);
+            // then one tiny overwrite per transaction
+            match t {
+                0 => {
+                    for i in 0..6000 {
+                        *tag += 1;
+                        ops.push(Op::Put { h: 0, k: K { pre: format!("f{:05}", i).into_bytes(), fill: 4, post: vec![] }, v: V { tag: *tag, len: 300 }, how: How::Slice, vhow: How::Slice });
+                    }
+                }
+                1 => {
+                    for i in 0..6000 {
+                        if (i / 2) % 2 == 0 {
+                            ops.push(Op::Delete { h: 0, k: K { pre: format!("f{:05}", i).into_bytes(), fill: 4, post: vec![] } });
+                        }
+                    }
+                }
+                _ => {
+                    *tag += 1;
+                    ops.push(Op::Put { h: 0, k: K::lit(b"tiny"), v: V { tag: *tag, len: 8 }, how: How::Slice, vhow: How::Slice });
+                }
+            }
+        }
+        "fixed-size-overwrite" | "after-reader-churn" => {
             for _ in 0..8 {
                 let i = rng.usize(nkeys);
                 put(&mut ops, 0, i, 100);
@@ -142,6 +166,7 @@ pub struct Outcome {
     pub inconclusive: Option<String>,
     pub fileck_runs: u64,
     pub multi_page_freelist: bool,
+    pub churn_readers: u64,
 }
 
 struct State<'c> {
@@ -161,11 +186,7 @@ impl<'c> State<'c> {
         let script = tx_script(&c.kind, &mut self.rng, t, &mut self.tag, ps);
         exec::exec_tx(&mut self.run, db, path, &script, t, &mut self.committed);
         if self.run.out.aborted {
-            return Err(format!(
-                "transaction {} disagreed with the model (C01 territory): {:?}",
-                t,
-                self.run.out.violations.first().map(|v| v.detail.clone())
-            ));
+            return Err(crate::report::workload_failure(self.run.out.violations.first(), &format!("transaction {} was cut short", t)));
         }
         let head = crate::snap::read_prefix(path, 2 * ps);
         let (m, _) = fileck::choose_meta(&head, ps);
@@ -229,6 +250,7 @@ pub fn run_case(c: &Case, path: &std::path::Path) -> Outcome {
             inconclusive: None,
             fileck_runs: 0,
             multi_page_freelist: false,
+            churn_readers: 0,
         },
     };
     let r = util::catch(|| -> Result<(), String> {
@@ -287,6 +309,33 @@ pub fn run_case(c: &Case, path: &std::path::Path) -> Outcome {
             drop(cur);
             crate::c03::forbid_grow(false);
             return Ok(());
+        }
+        if c.kind == "after-reader-churn" {
+            // eight threads open and close short readers on clones of the handle, all joined before the
+            // first write: afterwards no reader is open and none may still be registered
+            let stop = std::sync::Arc::new(std::sync::atomic::AtomicBool::new(false));
+            let mut hs = Vec::new();
+            for _ in 0..8 {
+                let d = db.clone();
+                let stop = stop.clone();
+                hs.push(std::thread::spawn(move || {
+                    let mut n = 0u64;
+                    while !stop.load(std::sync::atomic::Ordering::Relaxed) {
+                        if let Ok(tx) = d.tx(false) {
+                            drop(tx);
+                            n += 1;
+                        }
+                    }
+                    n
+                }));
+            }
+            std::thread::sleep(std::time::Duration::from_millis(800));
+            stop.store(true, std::sync::atomic::Ordering::Relaxed);
+            let mut total = 0;
+            for h in hs {
+                total += h.join().unwrap_or(0);
+            }
+            st.o.churn_readers = total;
         }
         while t < c.txs {
             if has_reader && t == c.reader.0 {
@@ -353,7 +402,7 @@ fn judge(c: &Case, o: &mut Outcome) {
     }
     let l = o.max_live;
     let d = o.max_delta.max(1);
-    let tight = (c.kind == "fixed-size-overwrite" || c.kind == "delete-reinsert") && !c.handover;
+    let tight = (c.kind == "fixed-size-overwrite" || c.kind == "delete-reinsert" || c.kind == "after-reader-churn") && !c.handover;
     // hand-over: the pages freed by the previous transaction stay pending one transaction longer
     let bound = if tight { l + 2 * d + 8 } else { 4 * (l + d) + 16 };
     let mut c = c.clone();
@@ -451,6 +500,14 @@ pub fn cases(ctx: &Ctx) -> Vec<Case> {
         i += 1;
         v.push(Case { kind: "large-bucket-fill-drop".to_string(), pagesize: 1024, txs: (t / 3).clamp(60, 400), reopen_every: reopen, reader: (0, 0), handover: false, readers: vec![], seed: ctx.seed.wrapping_mul(733).wrapping_add(i) });
     }
+    // a large, fragmented free set (multi-page requests must still find their run further up)
+    i += 1;
+    v.push(Case { kind: "fragmented-free-set".to_string(), pagesize: 1024, txs: (t / 2).clamp(120, 600), reopen_every: 40, reader: (0, 0), handover: false, readers: vec![], seed: ctx.seed.wrapping_mul(733).wrapping_add(i) });
+    // many short readers on eight threads first, then an ordinary overwrite run
+    for _ in 0..2 {
+        i += 1;
+        v.push(Case { kind: "after-reader-churn".to_string(), pagesize: 1024, txs: t, reopen_every: 0, reader: (0, 0), handover: false, readers: vec![], seed: ctx.seed.wrapping_mul(733).wrapping_add(i) });
+    }
     // several readers of different ages closing in every order; and two readers of the same snapshot
     let a = t / 10;
     let orders: [[usize; 3]; 6] = [[0, 1, 2], [0, 2, 1], [1, 0, 2], [1, 2, 0], [2, 0, 1], [2, 1, 0]];
@@ -513,7 +570,7 @@ pub fn run(ctx: &Ctx) -> Shard {
             shard.violation(ctx, sig, &format!("[{} reopen_every={} reader={:?}] {}", c.kind, c.reopen_every, c.reader, detail), &replay);
         }
         if let Some(e) = &o.inconclusive {
-            shard.inconclusive(format!("[{}] {}", c.kind, e));
+            shard.inconclusive_or_workload(ctx, &format!("[{}]", c.kind), e, &serde_json::json!({"kind": "c10", "c10_case": c}));
         }
         let step = (o.hwm.len() / 24).max(1);
         let series: Vec<u64> = o.hwm.iter().step_by(step).cloned().collect();
@@ -531,6 +588,9 @@ pub fn run(ctx: &Ctx) -> Shard {
         shard.count("fileck_conservation_checks", o.fileck_runs);
         shard.count("pages_allocated_below_previous_hwm(reuse)", o.reuse);
         shard.count("max_hwm", 0);
+        if o.churn_readers > 0 {
+            shard.count("short_readers_opened_and_closed_on_8_threads_before_a_run", o.churn_readers);
+        }
         if o.multi_page_freelist {
             shard.count("runs_with_a_multi_page_free_list", 1);
         }
